@@ -9,7 +9,7 @@ from vlib.objworld import program_st  # noqa: E402
 from vlib.runner import main  # noqa: E402
 
 WEIGHTS = {"open": 3, "close": 1, "login": 2, "logout": 1, "create": 10, "copy": 4, "destroy": 2, "set": 6, "gen": 3,
-           "genpair": 2, "find": 1}
+           "genpair": 2, "find": 1, "unwrap": 4, "derive": 3}
 
 
 class C09(ObjCheck):
